@@ -147,6 +147,9 @@ func NewSession(kind int, o Options) *Session {
 		}
 		if o.Hooks != nil {
 			opts = append(opts, modbus.WithSerialHooks(o.Hooks))
+		} else if serialCtr.Add(1)%2 == 0 {
+			// logging switched off the way applications switch it off: the option is given, with a nil value
+			opts = append(opts, modbus.WithSerialHooks(nil))
 		}
 		var c *modbus.SerialClient
 		if o.Flusher {
@@ -212,6 +215,8 @@ func (s *Session) Do(req packet.Request, script xport.Script) Outcome {
 	out.Events = s.Conn.Events()
 	return out
 }
+
+var serialCtr atomic.Int64
 
 var errAppCause = errors.New("verif: the application's own reason for cancelling")
 
